@@ -167,9 +167,10 @@ class NewThread(Unit):
     nrandom = {"quick": 60, "thorough": 800}
     def programs(self, tier):
         if tier == "quick":
-            return [("1", "-"), ("2", "1.0"), ("1,1", "-"), ("1,1", "2.0"), ("2,1", "-"), ("1,1,1", "1.0")]
-        return [(c, st) for c in ("1", "2", "3", "1,1", "2,1", "2,2", "1,1,1", "2,1,1", "1,1,1,1")
-                for st in ("-", "1.0")]
+            return [("1", "-"), ("2", "1.0"), ("1,1", "-"), ("1,1", "2.0"), ("2,1", "-"), ("1,1,1", "1.0"),
+                    ("1", "-", "d"), ("2,1", "1.0", "d")]      # "d": the completion destroys the operation state
+        return [(c, st) + d for c in ("1", "2", "3", "1,1", "2,1", "2,2", "1,1,1", "2,1,1", "1,1,1,1")
+                for st in ("-", "1.0") for d in ((), ("d",))]
     def model_args(self, prog):
         return "%s %s" % (prog[0], prog[1])
     def project(self, prog, events):
